@@ -465,6 +465,7 @@ func execP1Inner(op string, a []string) string {
 	case "sc.tobytes":
 		// a[0] = the destination buffer as the caller hands it over
 		out := unhex(a[0])
+		arenaAllowWrites() // the argument IS the output buffer
 		err := p1Sc(p1Sc0).ToBytes(out)
 		if err != nil {
 			return "err rcv=" + hx(out)
